@@ -482,6 +482,12 @@ def transform(
             target, target_dim, target_data_dim, target_data
         )
 
+        # Bins that neither increase nor decrease strictly have no defined answer. Refuse
+        # them here: the interpolation below may be lazy and would only fail when computed.
+        target_diff = np.diff(target.values)
+        if not (all(target_diff < 0) or all(target_diff > 0)):
+            raise ValueError("Target values are not monotonic")
+
         # check on which coordinate `target_data` is, and interpolate if needed
         if target_data_dim not in target_data.dims:
             warnings.warn(
